@@ -232,5 +232,38 @@ package literals
 //@   hooks denote
 //@   requires len(extKeys) > 0 && forall k int :: 0 <= k && k < len(extKeys) ==> extKeys[k] != nil && (extKeys[k].bits == 8 || extKeys[k].bits == 16 || extKeys[k].bits == 32 || extKeys[k].bits == 64)
 //@   skip safety
+//@   assigns externalKey.refs, ghost den
 //@   ensures @emitted-expression-evaluates-to-the-byte: r0 != nil && den[r0] == val
+//@ end
+
+// ---- C05: the seed obfuscator ----
+// Every byte b is emitted as an argument denoting enc = b <op> seed, after which seed += enc; the
+// emitted decoder starts from the same initial seed, appends x <inverse op> seed for every argument x
+// in order and advances seed += x. Each iteration is proved to emit exactly that argument and to
+// extend the call chain fnc(a0)(a1)... by one call; the meaning of the emitted closure (Go's semantics
+// of its three statements) is not formalised, and that earlier links of the chain stay untouched is
+// not proved.
+
+//@ func (seed).obfuscate
+//@   property C05
+//@   intmode bv
+//@   spec ops.smt2
+//@   hooks denote
+//@   requires len(extKeys) > 0 && len(data) > 0
+//@   skip safety call-requires
+//@   ghost prevSeed byte
+//@   ghost prevCall ref
+//@   ensures @decoder-starts-from-the-seed-the-encoder-started-from: r0 != nil && len(r0.List) == 6 && dyntypeis(r0.List[0], *ast.AssignStmt) && r0.List[0].(*ast.AssignStmt).Tok == token.DEFINE && r0.List[0].(*ast.AssignStmt).Lhs[0].(*ast.Ident).Name == "seed" && den[r0.List[0].(*ast.AssignStmt).Rhs[0]] == originalSeed
+//@   ensures @the-call-chain-is-what-is-executed: dyntypeis(r0.List[5], *ast.ExprStmt) && r0.List[5].(*ast.ExprStmt).X == callExpr
+//@   ensures @decoder-appends-x-inverse-op-seed-then-advances-the-seed: dyntypeis(r0.List[4], *ast.AssignStmt) && r0.List[4].(*ast.AssignStmt).Lhs[0].(*ast.Ident).Name == "fnc" && dyntypeis(r0.List[4].(*ast.AssignStmt).Rhs[0], *ast.FuncLit) && len(r0.List[4].(*ast.AssignStmt).Rhs[0].(*ast.FuncLit).Body.List) == 3 && dyntypeis(r0.List[4].(*ast.AssignStmt).Rhs[0].(*ast.FuncLit).Body.List[0], *ast.AssignStmt) && r0.List[4].(*ast.AssignStmt).Rhs[0].(*ast.FuncLit).Body.List[0].(*ast.AssignStmt).Lhs[0].(*ast.Ident).Name == "data" && dyntypeis(r0.List[4].(*ast.AssignStmt).Rhs[0].(*ast.FuncLit).Body.List[0].(*ast.AssignStmt).Rhs[0], *ast.CallExpr) && r0.List[4].(*ast.AssignStmt).Rhs[0].(*ast.FuncLit).Body.List[0].(*ast.AssignStmt).Rhs[0].(*ast.CallExpr).Fun.(*ast.Ident).Name == "append" && r0.List[4].(*ast.AssignStmt).Rhs[0].(*ast.FuncLit).Body.List[0].(*ast.AssignStmt).Rhs[0].(*ast.CallExpr).Args[0].(*ast.Ident).Name == "data" && r0.List[4].(*ast.AssignStmt).Rhs[0].(*ast.FuncLit).Body.List[0].(*ast.AssignStmt).Rhs[0].(*ast.CallExpr).Args[1].(*ast.BinaryExpr).Op == spec.Rev(op) && r0.List[4].(*ast.AssignStmt).Rhs[0].(*ast.FuncLit).Body.List[0].(*ast.AssignStmt).Rhs[0].(*ast.CallExpr).Args[1].(*ast.BinaryExpr).X.(*ast.Ident).Name == "x" && r0.List[4].(*ast.AssignStmt).Rhs[0].(*ast.FuncLit).Body.List[0].(*ast.AssignStmt).Rhs[0].(*ast.CallExpr).Args[1].(*ast.BinaryExpr).Y.(*ast.Ident).Name == "seed"
+//@   ensures @decoder-advances-the-seed-by-the-argument: dyntypeis(r0.List[4].(*ast.AssignStmt).Rhs[0].(*ast.FuncLit).Body.List[1], *ast.AssignStmt) && r0.List[4].(*ast.AssignStmt).Rhs[0].(*ast.FuncLit).Body.List[1].(*ast.AssignStmt).Tok == token.ADD_ASSIGN && r0.List[4].(*ast.AssignStmt).Rhs[0].(*ast.FuncLit).Body.List[1].(*ast.AssignStmt).Lhs[0].(*ast.Ident).Name == "seed" && r0.List[4].(*ast.AssignStmt).Rhs[0].(*ast.FuncLit).Body.List[1].(*ast.AssignStmt).Rhs[0].(*ast.Ident).Name == "x"
+//@   loop 0
+//@     iter prevSeed = seed
+//@     iter prevCall = callExpr
+//@     invariant @encoder-starts-from-the-emitted-seed: _i == 0 ==> seed == originalSeed
+//@     invariant @argument-i-denotes-byte-i-encoded-with-the-running-seed: _i >= 1 ==> callExpr != nil && len(callExpr.Args) == 1 && den[callExpr.Args[0]] == spec.Eval(op, data[_i-1], prevSeed)
+//@     invariant @the-running-seed-advances-by-the-emitted-argument: _i >= 1 ==> seed == prevSeed + den[callExpr.Args[0]]
+//@     invariant @the-chain-grows-by-one-call: _i >= 2 ==> callExpr.Fun == prevCall
+//@     invariant @the-chain-starts-at-fnc: _i == 1 ==> callExpr.Fun.(*ast.Ident).Name == "fnc"
+//@     invariant @data-is-only-read: forall j int :: 0 <= j && j < len(data) ==> data[j] == old(data[j])
 //@ end
